@@ -55,6 +55,9 @@ class BaseAnalytical(object):
 
         if symmetric:
             self.r = np.linspace(-r_max, r_max, n)
+            if n % 2:
+                # exact zero at the centre (linspace may leave a rounding residue)
+                self.r[n // 2] = 0.0
         else:
             self.r = np.linspace(0, r_max, n)
 
